@@ -8,7 +8,7 @@ from pvc.contract import Contract
 from pvc.explore import Raised
 from pvc.sym import And, Or, Not, Implies, eq, lt, le, is_sym, smin, smax, ssum
 from . import fx
-from .net import Net, build_dcop, global_cost, HandlerRaised, get_spec
+from .net import Net, build_dcop, global_cost, HandlerRaised, get_spec, warm_up
 
 SPECS = {
     "pair": dict(vars={"x1": [0, 1], "x2": ["a", "b"]}, cons=[["x1", "x2"]]),
@@ -28,6 +28,8 @@ def h_syncbb(env):
     spec = get_spec(env, p, SPECS)
     mode = env.choice("mode", p.get("modes", ["min", "max"]))
     lo = 0 if mode == "min" else None
+    if p.get("warm_up"):
+        warm_up(env, "syncbb", mode, spec, {}, lo=lo)
     variables, cons, tabs, varcost = build_dcop(env, spec, lo=lo)
     try:
         net = Net(env, "syncbb", mode, variables, cons, {})
@@ -78,6 +80,8 @@ def _shapes(tier, prop=None):
     q = [dict(spec="pair"), dict(spec="pair3", modes=["min"]), dict(spec="chain3", modes=["min"]), dict(spec="chain3", modes=["max"]),
          dict(spec="far", modes=["min"]), dict(spec="unordered", modes=["min"], start_order="rev", interleave_start=True),
          dict(spec="double", modes=["min"]), dict(spec="triangle", modes=["max"])]
+    # a first solve of another problem under the same names in the same process (state kept between runs)
+    q += [dict(spec="chain3", modes=["min"], warm_up=True), dict(spec="triangle", modes=["max"], warm_up=True)]
     # 4 variables: a variable in the middle of the order backtracks under a finite bound (too many paths for the exact
     # exploration: decided by the sampled native pass, several parts in parallel)
     q += [dict(spec="line4", modes=["min"], sample_only=True, sample_factor=12, sample_part=i) for i in range(4)]
